@@ -3,13 +3,16 @@ package props
 import (
 	"fmt"
 	"math/rand"
+	"net/url"
 	"strings"
+	"sync"
 	"time"
 
 	"github.com/zitadel/saml/pkg/provider"
 	"github.com/zitadel/saml/pkg/provider/xml/md"
 
 	"verif/harness/core"
+	"verif/harness/env"
 	"verif/harness/spsim"
 )
 
@@ -205,7 +208,7 @@ func init() {
 		Build: func(c *Ctx) []core.Workload {
 			r := c.Run
 			maxLen := c.Pick(3, 4)
-			r.Rule = fmt.Sprintf("every AssertionConsumerService list up to length %d over binding {POST, Redirect, Artifact, other} x index {0,1,2,7,65535} x isDefault {absent,true,false,1,0} (100 entry variants, unique Location per entry) is passed to the exported selection function for each requested binding {absent, the four listed, one unlisted}; a reference model gives the set of acceptable entries (requested binding: first match; else first isDefault true/1; else any entry of minimal index; empty list: nothing; URL and binding from the same entry). Quick adds 200 000 random length-4 lists. End-to-end: random lists as real SP metadata through the SSO handler, comparing the pair given to CreateAuthRequest. Distinct = pairwise different lists by construction.", maxLen)
+			r.Rule = fmt.Sprintf("every AssertionConsumerService list up to length %d over binding {POST, Redirect, Artifact, other} x index {0,1,2,7,65535} x isDefault {absent,true,false,1,0} (100 entry variants, unique Location per entry) is passed to the exported selection function for each requested binding {absent, the four listed, one unlisted}; a reference model gives the set of acceptable entries (requested binding: first match; else first isDefault true/1; else any entry of minimal index; empty list: nothing; URL and binding from the same entry). Quick adds 200 000 random length-4 lists. End-to-end: random lists as real SP metadata through the SSO handler, comparing the pair given to CreateAuthRequest; and freshly registered service providers whose first twelve requests arrive at the same time. Distinct = pairwise different lists by construction.", maxLen)
 			r.SetExhaustive(true)
 			r.Extra("exhaustive_max_length", maxLen)
 			r.Require("lists_enumerated", 1000000)
@@ -215,7 +218,76 @@ func init() {
 				wls = append(wls, core.Workload{Name: "random_length4", N: 100, Fn: c16Random})
 			}
 			wls = append(wls, core.Workload{Name: "end_to_end", N: c.Pick(600, 6000), Fn: c16EndToEnd})
+			wls = append(wls, core.Workload{Name: "concurrent_first_use", N: c.Pick(300, 1500), Fn: c16ConcurrentFirstUse})
+			r.Require("concurrent_first_requests", 20000)
 			return wls
 		},
 	})
+}
+
+// c16ConcurrentFirstUse: a freshly registered service provider gets its first requests all at once (whatever a
+// provider derives from a registration on first use is then derived under contention); the pair persisted for each of
+// them must be one the documented rule allows for ITS requested binding.
+func c16ConcurrentFirstUse(r *core.Run, idx int, rng *rand.Rand) {
+	const wl = "concurrent_first_use"
+	e := env.Static(env.Opts{})
+	e.W.NoLog = false
+	for round := 0; round < 12; round++ {
+		d := stdSP(0)
+		d.AuthnRequestsSigned = ""
+		d.EntityID = fmt.Sprintf("https://sp-%d-%d.example/metadata", idx, round)
+		n := 2 + rng.Intn(5)
+		d.ACS = nil
+		for i := 0; i < n; i++ {
+			d.ACS = append(d.ACS, spsim.ACS{Binding: []string{spsim.BindPost, spsim.BindRedirect}[rng.Intn(2)], Location: fmt.Sprintf("https://sp-%d-%d.example/acs/%d", idx, round, i),
+				Index: []string{"0", "1", "2", "7", "65535"}[rng.Intn(5)], IsDefault: []string{"", "", "", "true", "false", "1", "0"}[rng.Intn(7)]})
+		}
+		mustRegister(e.W, d, fmt.Sprintf("app-%d", round))
+		type req struct {
+			binding string
+			rq      env.Req
+		}
+		var reqs []req
+		for k := 0; k < 12; k++ {
+			a := validAuthn(rng, d)
+			a.ACSURL, a.ACSIndex = "", ""
+			a.ProtocolBinding = []string{"", spsim.BindPost, spsim.BindRedirect, spsim.BindArtifact}[rng.Intn(4)]
+			x := a.XML(rng)
+			reqs = append(reqs, req{a.ProtocolBinding, env.Req{Path: env.PathSSO, Query: "SAMLRequest=" + url.QueryEscape(spsim.DeflateB64(x))}})
+		}
+		calls := make([]*env.Call, len(reqs))
+		var wg sync.WaitGroup
+		start := make(chan struct{})
+		for k := range reqs {
+			wg.Add(1)
+			go func(k int) { defer wg.Done(); <-start; calls[k] = e.Do(reqs[k].rq) }(k)
+		}
+		close(start)
+		wg.Wait()
+		for k, call := range calls {
+			r.Count("concurrent_first_requests", 1)
+			desc := map[string]any{"acs": d.ACS, "requested": reqs[k].binding}
+			if call.Panic != "" {
+				r.Violate(core.Violation{Clause: "panic", Class: "concurrent_first_use", Reason: call.Panic, Workload: wl, Index: idx, Case: desc, Observed: call.Describe()})
+				continue
+			}
+			acc := refConsumerChoice(d.ACS, reqs[k].binding)
+			ev := call.First("CreateAuthRequest")
+			if ev == nil || len(ev.Args) < 2 {
+				// every entry here is answerable, so the rule always selects something a request can be accepted with
+				r.Violate(core.Violation{Clause: "end_to_end_selection", Class: "concurrent_first_use", Reason: fmt.Sprintf("one of the first, simultaneous requests of a fresh registration was not persisted (status %d %s) although the rule selects position(s) %v", call.D.Status, clipS(string(call.D.Body), 160), acc), Workload: wl, Index: idx, Case: desc, Observed: call.Describe()})
+				continue
+			}
+			ok := false
+			for _, p := range acc {
+				if p >= 0 && ev.Args[0] == d.ACS[p].Location && ev.Args[1] == d.ACS[p].Binding {
+					ok = true
+				}
+			}
+			if !ok {
+				r.Violate(core.Violation{Clause: "end_to_end_selection", Class: "concurrent_first_use", Reason: fmt.Sprintf("CreateAuthRequest(%q, %q) for one of the first, simultaneous requests of a fresh registration; acceptable positions %v", ev.Args[0], ev.Args[1], acc), Workload: wl, Index: idx, Case: desc, Observed: call.Describe()})
+			}
+		}
+	}
+	r.Eval(fmt.Sprintf("first_use|%d", idx))
 }
